@@ -27,6 +27,13 @@
 //! truly secure zones in answer and authority; nothing forged and no denial of existing secure data
 //! to a CD=0 client; RD=0 refused.
 //!
+//! Anchored-island mode (`isl.rs`, rules `isl-*`, counters `isl/*`, witnesses `"mode": "isl"`): the same
+//! validator entry point, upstream emulation, tamper layer, fault menu and oracle over worlds whose
+//! trust anchor is the keyset-signing key of a NON-root zone Z; the upstream serves Z and its children
+//! only (REFUSED outside) and answers `Z DS` from the child side (NODATA, SOA + apex NSEC / matching
+//! NSEC3 with the SOA bit, signed by Z). Runs after everything else on a PRNG stream of its own.
+//! `--only=isl` runs it alone; `C07_IDUMP=1` prints its honest runs.
+//!
 //! Determinism: hierarchies and queries come from the shard's main PRNG stream; every later stage
 //! draws from a generator derived from (hierarchy, query, stage), because what hickory does with a
 //! tampered response (order and set of sub-queries) depends on its randomly seeded HashMaps.
@@ -43,6 +50,7 @@ mod chain;
 mod cli;
 mod fault;
 mod hier;
+mod isl;
 mod keys;
 mod oracle;
 mod rec;
@@ -919,6 +927,10 @@ fn main() {
                     cli::replay(&mut rep, &lab.attacker, &h, c);
                     rep.replay_finish();
                 }
+                if c["mode"].as_str() == Some("isl") {
+                    isl::replay(&mut rep, &lab, &h, c);
+                    rep.replay_finish();
+                }
                 if c["mode"].as_str() == Some("rec") {
                     rec::replay(&mut rep, &lab.attacker, &b, &h.to_json(), c, ctx.extra.contains_key("dump"));
                     rep.replay_finish();
@@ -1019,6 +1031,33 @@ fn main() {
     for (k, n) in [("alter-bit", 500), ("drop", 500), ("replace-genuine", 430), ("inject-forged", 490), ("strip-rrsigs", 420), ("strip-denial", 65), ("flip-rcode", 470), ("empty-section", 470), ("replay-other", 360), ("attacker-keyset", 180), ("attacker-ds", 125), ("attacker-chain", 110), ("fake-insecure-delegation", 140), ("ancestor-denial", 110), ("fake-cut", 40), ("insecure-soa-denial", 85), ("cross-zone-signature", 80)] {
         rep.must(&format!("cli/tampered_runs/{k}"), n);
     }
+    // anchored-island mode (I)
+    rep.must("isl/worlds", 80);
+    for (k, n) in [("nsec", 35), ("nsec3", 15), ("nsec3-optout", 15)] {
+        rep.must(&format!("isl/worlds/{k}"), n);
+        rep.must(&format!("isl/honest_secure/{k}"), 2 * n);
+        rep.must(&format!("isl/child_side_ds_denial_validated/{k}"), if k == "nsec" { 30 } else { 12 });
+        rep.must(&format!("isl/honest_insecure_proven_by_{k}_parent"), 15);
+    }
+    rep.must("isl/worlds/keyset-is-the-anchor-only", 60);
+    rep.must("isl/worlds/keyset-has-more-than-the-anchor", 15);
+    rep.must("isl/runs", 18_000);
+    rep.must("isl/honest_secure", 300);
+    rep.must("isl/honest_secure_records_below_the_anchor_zone", 90);
+    rep.must("isl/honest_insecure", 50);
+    rep.must("isl/child_side_ds_denial_validated", 60);
+    rep.must("isl/tampered_rejected", 11_000);
+    rep.must("isl/tampered_runs_with_child_side_ds_lookup", 5000);
+    rep.must("isl/tampered_rejected_after_child_side_ds_lookup", 5000);
+    rep.must("isl/history_honest_after_tampered", 1000);
+    for (k, n) in [("alter-bit", 2200), ("drop", 2000), ("replace-genuine", 1000), ("inject-forged", 2000), ("strip-rrsigs", 950), ("strip-denial", 250), ("flip-rcode", 1900), ("empty-section", 2000), ("replay-other", 800), ("attacker-keyset", 1000), ("attacker-ds", 150), ("attacker-chain", 140), ("fake-insecure-delegation", 140), ("ancestor-denial", 150), ("fake-cut", 260), ("insecure-soa-denial", 220), ("cross-zone-signature", 200)] {
+        rep.must(&format!("isl/tampered_runs/{k}"), n);
+    }
+    for k in ["alter-bit", "drop", "inject-forged", "strip-rrsigs"] {
+        for (l, n) in [("answer", 240), ("denial", 240), ("dnskey", 400), ("ds", 55)] {
+            rep.must(&format!("isl/fault/{k}/{l}"), n);
+        }
+    }
 
     let attacker_tags = lab.attacker.tag_table();
     let collision = hier::find_collision(6000);
@@ -1036,11 +1075,14 @@ fn main() {
     let n_hist = if thorough { 8 } else { 4 };
     let n_server = if thorough { 40 } else { 6 };
     let server_on = ctx.extra.get("server").map_or(true, |v| v != "0");
-    // development aid: --only=old | rec | cli runs one part of the workload (the must-counters of the others then fail)
+    // development aid: --only=old | rec | cli | isl runs one part of the workload (the must-counters of the others then fail)
     let only = ctx.extra.get("only").cloned();
     let old_on = only.as_deref().map_or(true, |v| v == "old");
     let rec_on = only.as_deref().map_or(true, |v| v == "rec");
     let cli_on = only.as_deref().map_or(true, |v| v == "cli");
+    let isl_on = only.as_deref().map_or(true, |v| v == "isl");
+    let n_hier = if only.as_deref() == Some("isl") { 0 } else { n_hier };
+    let isl_params = isl::IParams { n_queries: if thorough { 10 } else { 6 }, cap_single: if thorough { 120 } else { 30 }, n_hist: if thorough { 4 } else { 2 } };
     let cli_params = cli::CParams { n_queries: if thorough { 10 } else { 8 }, cap_single: if thorough { 40 } else { 24 }, n_hist: if thorough { 4 } else { 4 } };
     let rec_params = rec::RParams { n_queries: if thorough { 10 } else { 8 }, cap_single: if thorough { 60 } else { 32 }, n_hist: if thorough { 6 } else { 6 } };
 
@@ -1241,6 +1283,18 @@ fn main() {
                 let (qn, ql) = (show(&q.qname), q.label);
                 j.rep.sample(|| json!({"workload": "recorded-exchanges", "query": qn, "kind": ql, "upstream_exchanges": keys}));
             }
+        }
+    }
+
+    // ---- anchored-island mode (I): trust anchor = key of a non-root zone, child-side DS denial -------
+    if isl_on {
+        // a stream of its own, after everything else: the other parts see exactly what they saw before
+        let mut irng = ctx.rng("isl");
+        let n_isl = ctx.budget(256, 8000);
+        for ii in 0..n_isl {
+            let global_idx = ctx.shard + ctx.nshards * ii;
+            let h = isl::gen_island(&mut irng, global_idx, &attacker_tags);
+            isl::workload(&mut rep, &lab, &h, &attacker_tags, &isl_params, ii < 1);
         }
     }
 
